@@ -1250,6 +1250,16 @@ def c16_programs(tier, sd):
     out.append({"tag": "fault_unsat", "desc": "unsatisfiable calls interleaved", "prog": pr, "world": [["p", "obj", "Probe"]],
                 "ops": [["randomize_with", ["p"], unsat], ["randomize", ["p"]], ["randomize_with", ["p"], unsat], ["list_append", ["p", "l"], 0],
                         ["randomize_with", ["p"], unsat], ["randomize", ["p"]]] + tail})
+    # a failing call on an object with a random-size list: the size may already be solved (own rand set) when the elements fail,
+    # or the whole call may fail before anything is solved; appending afterwards must act on the list the user sees
+    for sc, body in (([E(["<=", ["size", ["l"]], lit(4)]), E([">=", ["size", ["l"]], lit(3)])], [["foreach", ["l"], "i", [E(["in", ["it", "i"], [["rng", ["*", ["idx", "i"], lit(10)], ["+", ["*", ["idx", "i"], lit(10)], lit(5)]]]])]]]),
+                     ([E(["==", ["size", ["l"]], lit(3)])], [["foreach", ["l"], "i", [E([">", ["it", "i"], lit(20)])]]]),
+                     ([E(["<=", ["size", ["l"]], lit(3)]), E([">", ["size", ["l"]], lit(0)])], [E(["==", ["sum", ["l"]], lit(100)])])):
+        PL = {"name": "PL", "fields": [["l", "list", ["u", 4], 0, True, True], fld("k", ("u", 8))], "blocks": [["pb", "c", sc + body]]}
+        out.append({"tag": "fault_randsz", "desc": "failing calls on a random-size list %s %s" % (sc, body), "prog": {"enums": {}, "classes": [PL]},
+                    "world": [["q", "obj", "PL"]],
+                    "ops": [["randomize", ["q"]], ["list_append", ["q", "l"], 5], ["randomize", ["q"]], ["randomize_with", ["q"], [E(["==", F("k"), lit(1)]), E(["==", F("k"), lit(2)])]],
+                            ["list_append", ["q", "l"], 6], ["randomize", ["q"]], ["list_clear", ["q", "l"]], ["list_append", ["q", "l"], 7], ["randomize", ["q"]]]})
     # failing calls on objects whose constraints reach fields only through dynamic blocks of list elements (solver handles!)
     out += [dict(p, tag="fault_" + p["tag"]) for p in c06_programs(tier, sd) if p["tag"] == "inline_fail"]
     # seeded mixtures
@@ -1456,6 +1466,8 @@ def c04_programs(tier, sd):
         ("in_list", [E(["in_list", k, ["l"]]), E([">", SZ, lit(0)]), fe(E(["<", IT, lit(5)]))]),
         ("foreach_if_field", [fe(["if", [[["<", a, lit(2)], [E(["==", IT, lit(1)])]]], [E(["==", IT, lit(2)])]])]),
         ("unconstrained_elems", []),
+        ("foreach_in_idx", [fe(E(["in", IT, [["rng", ["*", IX, lit(10)], ["+", ["*", IX, lit(10)], lit(5)]], ["+", IX, lit(100)]]]))]),
+        ("foreach_notin_idx", [fe(E(["notin", IT, [["rng", lit(0), ["+", IX, lit(3)]]]])), fe(E(["<", IT, lit(12)]))]),
         ("product", [E(["<", ["product", ["l"]], lit(40)]), fe(E([">", IT, lit(1)]))]),
     ]
     for ety in (("u", 8), ("u", 4), ("s", 8)):
